@@ -3,14 +3,14 @@
    hash_and_compact_terminal.  Models only, no proofs.
 
    Every Rust panic site is an explicit [Panic] outcome (the Rust line is quoted next to it).
-   Line numbers refer to /repo/core/src/proof/multi_proof.rs.
+   Line numbers refer to /repo/core/src/proof/multi_proof.rs at commit d984855.
 
    Modelling choices (see also the comments in place):
    * Stacks ([CommonSiblings::bisection_stack], [CommonSiblings::stack], [pending_siblings]) have
      their top (= last element of the Rust Vec) at the head of the list.  [working_ops] is in
      Rust order.
    * [leaf_ops_spliced] / [build_trie] are the mirrors of BuildTrie.v.  The ops handed to
-     leaf_ops_spliced are strictly ascending (enforced at :745 before they are collected), which is
+     leaf_ops_spliced are strictly ascending (enforced at :777 before they are collected), which is
      the assumption under which BuildTrie.splice mirrors the Rust binary search.
    * The dummy last item of the main loop is the separate function [verify_update_last]. *)
 From Nomt Require Import Base Hash Trie Result PathProof BuildTrie MultiProof.
@@ -19,7 +19,8 @@ Section WithHasher.
   Variable H : Hasher.
   Variable KEYLEN : nat.   (* 256 in the implementation; only build_trie depends on it *)
 
-  (* :575 MultiVerifyUpdateError (prefixed: VerifyUpdate.v already has OpsOutOfOrder ...) *)
+  (* :607 MultiVerifyUpdateError (prefixed: VerifyUpdate.v already has OpsOutOfOrder ...).
+     RootMismatch is never returned by the Rust function, nor by the model. *)
   Inductive multi_verify_update_error :=
   | MultiOpsOutOfOrder | MultiOpOutOfScope | MultiUpdateRootMismatch | MultiPathPrefixOfAnother.
 
@@ -27,15 +28,15 @@ Section WithHasher.
   Notation vmpath := verified_multi_path.
   Notation vmproof := (verified_multi_proof H).
 
-  (* :586 terminal_contains *)
+  (* :618 terminal_contains *)
   Definition terminal_contains (terminal : vmpath) (key_path : key) : res err bool :=
-    (* :587 [key_path[..terminal.depth]], [terminal.terminal.path()[..terminal.depth]] *)
+    (* :619 [key_path[..terminal.depth]], [terminal.terminal.path()[..terminal.depth]] *)
     do a <- slice_to_res key_path (vm_depth terminal) ;;
     do b <- slice_to_res (term_path (vm_terminal terminal)) (vm_depth terminal) ;;
     Ok (key_eqb a b).
 
   (* ---------------------------------------------------------------------------------------- *)
-  (* :596 CommonSiblings                                                                       *)
+  (* :628 CommonSiblings                                                                       *)
   Record common_siblings_t := {
     cs_bisection_stack : list verified_bisection;   (* top at the head *)
     cs_stack : list (nat * node H);                 (* top at the head *)
@@ -44,7 +45,7 @@ Section WithHasher.
     cs_bisection_index : nat
   }.
 
-  (* :605 CommonSiblings::new *)
+  (* :637 CommonSiblings::new *)
   Definition cs_new : common_siblings_t :=
     {| cs_bisection_stack := []; cs_stack := []; cs_taken_siblings := 0;
        cs_terminal_index := 0; cs_bisection_index := 0 |}.
@@ -55,7 +56,7 @@ Section WithHasher.
     | [] => []
     end.
 
-  (* :647 CommonSiblings::pop_to *)
+  (* :679 CommonSiblings::pop_to *)
   Definition pop_to (self : common_siblings_t) (depth : nat) : common_siblings_t :=
     {| cs_bisection_stack := pop_while (fun b => Nat.leb depth (vb_start_depth b)) (cs_bisection_stack self);
        cs_stack := pop_while (fun e : nat * node H => Nat.leb depth (fst e)) (cs_stack self);
@@ -71,10 +72,10 @@ Section WithHasher.
     | s :: sibs' => push_enumerated (S start_depth) sibs' ((start_depth, s) :: stack)
     end.
 
-  (* :661 CommonSiblings::extend *)
+  (* :693 CommonSiblings::extend *)
   Definition extend (self : common_siblings_t) (start_depth end_ : nat) (siblings : list (node H))
     : res err common_siblings_t :=
-    (* :662 [siblings[self.taken_siblings..end]] *)
+    (* :694 [siblings[self.taken_siblings..end]] *)
     do sl <- slice_res siblings (cs_taken_siblings self) end_ ;;
     Ok {| cs_bisection_stack := cs_bisection_stack self;
           cs_stack := push_enumerated start_depth sl (cs_stack self);
@@ -82,7 +83,7 @@ Section WithHasher.
           cs_terminal_index := cs_terminal_index self;
           cs_bisection_index := cs_bisection_index self |}.
 
-  (* :669 CommonSiblings::pop_if_at_depth *)
+  (* :701 CommonSiblings::pop_if_at_depth *)
   Definition pop_if_at_depth (self : common_siblings_t) (depth : nat) : option (node H) * common_siblings_t :=
     match cs_stack self with
     | (d, n) :: stack' =>
@@ -96,7 +97,7 @@ Section WithHasher.
     | [] => (None, self)
     end.
 
-  (* :619 the [while] loop of advance.  Fuel: every iteration that does not panic needs
+  (* :651 the [while] loop of advance.  Fuel: every iteration that does not panic needs
      bisection_index < bisections.len() and increments it; fuel = bisections.len() + 1. *)
   Fixpoint advance_loop (fuel : nat) (proof : vmproof) (next_terminal : vmpath) (prune : bool)
            (self : common_siblings_t) : res err common_siblings_t :=
@@ -105,18 +106,18 @@ Section WithHasher.
       match fuel with
       | O => Panic   (* out of fuel: unreachable, see above *)
       | S fuel' =>
-          (* :620 [proof.bisections[self.bisection_index]] *)
+          (* :652 [proof.bisections[self.bisection_index]] *)
           do next_bisection <- nth_res (vmp_bisections proof) (cs_bisection_index self) ;;
           let self := {| cs_bisection_stack := cs_bisection_stack self;
                          cs_stack := cs_stack self;
                          cs_taken_siblings := cs_taken_siblings self;
                          cs_terminal_index := cs_terminal_index self;
                          cs_bisection_index := cs_bisection_index self + 1 |} in
-          (* :623 assert_eq!(next_bisection.common_siblings.start, self.taken_siblings) *)
+          (* :655 assert_eq!(next_bisection.common_siblings.start, self.taken_siblings) *)
           if negb (Nat.eqb (vb_common_siblings_start next_bisection) (cs_taken_siblings self)) then Panic
           else
             let self := if prune then pop_to self (vb_start_depth next_bisection) else self in
-            (* :630 extend -> :662 *)
+            (* :662 extend -> :694 *)
             do self <- extend self (vb_start_depth next_bisection + 1)
                               (vb_common_siblings_end next_bisection) (vmp_siblings proof) ;;
             let self := {| cs_bisection_stack := next_bisection :: cs_bisection_stack self;
@@ -127,17 +128,17 @@ Section WithHasher.
             advance_loop fuel' proof next_terminal false self
       end.
 
-  (* :615 CommonSiblings::advance *)
+  (* :647 CommonSiblings::advance *)
   Definition advance (self : common_siblings_t) (proof : vmproof) : res err common_siblings_t :=
-    (* :616 [proof.inner[self.terminal_index]] *)
+    (* :648 [proof.inner[self.terminal_index]] *)
     do next_terminal <- nth_res (vmp_inner proof) (cs_terminal_index self) ;;
     do self <- advance_loop (S (length (vmp_bisections proof))) proof next_terminal true self ;;
-    (* :638 [unique_siblings.end - unique_siblings.start] : usize underflow *)
+    (* :670 [unique_siblings.end - unique_siblings.start] : usize underflow *)
     do terminal_n <- sub_res (vm_unique_siblings_end next_terminal)
                              (vm_unique_siblings_start next_terminal) ;;
-    (* :640 [next_terminal.depth - terminal_n + 1] : usize underflow of the subtraction *)
+    (* :672 [next_terminal.depth - terminal_n + 1] : usize underflow of the subtraction *)
     do d <- sub_res (vm_depth next_terminal) terminal_n ;;
-    (* :639 extend -> :662 *)
+    (* :671 extend -> :694 *)
     do self <- extend self (d + 1) (vm_unique_siblings_end next_terminal) (vmp_siblings proof) ;;
     Ok {| cs_bisection_stack := cs_bisection_stack self;
           cs_stack := cs_stack self;
@@ -146,7 +147,7 @@ Section WithHasher.
           cs_bisection_index := cs_bisection_index self |}.
 
   (* ---------------------------------------------------------------------------------------- *)
-  (* :853 the [for bit in ...] loop of hash_and_compact_terminal; [bits] are the bits already
+  (* :885 the [for bit in ...] loop of hash_and_compact_terminal; [bits] are the bits already
      reversed and cut to up_layers *)
   Fixpoint compact_loop (bits : list bool) (cur_node : node H) (cur_layer : nat)
            (pending_siblings : list (node H * nat)) (common_siblings : common_siblings_t)
@@ -155,7 +156,7 @@ Section WithHasher.
     | [] => Ok (cur_node, pending_siblings, common_siblings)
     | bit :: bits' =>
         let from_common :=
-          (* :868 common_siblings.pop_if_at_depth(cur_layer).unwrap() *)
+          (* :900 common_siblings.pop_if_at_depth(cur_layer).unwrap() *)
           match pop_if_at_depth common_siblings cur_layer with
           | (Some s, cs') => Ok (s, pending_siblings, cs')
           | (None, _) => Panic
@@ -164,13 +165,13 @@ Section WithHasher.
            match pending_siblings with
            | (s, l) :: ps =>
                if Nat.eqb l cur_layer
-               then (* :861 the popped common sibling is dropped, :863 pop().unwrap() cannot fail *)
+               then (* :893 the popped common sibling is dropped, :895 pop().unwrap() cannot fail *)
                     Ok (s, ps, snd (pop_if_at_depth common_siblings cur_layer))
                else from_common
            | [] => from_common
            end ;;
         let '(sibling, pending_siblings, common_siblings) := sel in
-        (* :871 *)
+        (* :903 *)
         let next :=
           match kind H cur_node, kind H sibling with
           | KTerm, KTerm => cur_node
@@ -178,12 +179,12 @@ Section WithHasher.
           | KTerm, KLeaf => sibling
           | _, _ => if bit then hint H sibling cur_node else hint H cur_node sibling
           end in
-        (* :895 [cur_layer -= 1] : cannot underflow (at most up_layers <= skip iterations), kept explicit *)
+        (* :927 [cur_layer -= 1] : cannot underflow (at most up_layers <= skip iterations), kept explicit *)
         do cur_layer' <- sub_res cur_layer 1 ;;
         compact_loop bits' next cur_layer' pending_siblings common_siblings
     end.
 
-  (* :816 hash_and_compact_terminal; returns the new (pending_siblings, common_siblings) *)
+  (* :848 hash_and_compact_terminal; returns the new (pending_siblings, common_siblings) *)
   Definition hash_and_compact_terminal (pending_siblings : list (node H * nat))
              (terminal : vmpath) (next_terminal : option vmpath)
              (common_siblings : common_siblings_t) (ops : list (key * option value))
@@ -194,20 +195,20 @@ Section WithHasher.
        match next_terminal with
        | Some next_terminal =>
            let n := common (term_path (vm_terminal terminal)) (term_path (vm_terminal next_terminal)) in
-           if Nat.eqb n skip then Err MultiPathPrefixOfAnother    (* :832 *)
-           else sub_res skip (n + 1)                              (* :838 [skip - (n + 1)] : usize underflow *)
+           if Nat.eqb n skip then Err MultiPathPrefixOfAnother    (* :864 *)
+           else sub_res skip (n + 1)                              (* :870 [skip - (n + 1)] : usize underflow *)
        | None => Ok skip
        end ;;
     let ops := leaf_ops_spliced leaf ops in
-    (* :844 build_trie: its slicing panics ([skip..] with skip > 256, [skip..skip + leaf_depth]) *)
+    (* :876 build_trie: its slicing panics ([skip..] with skip > 256, [skip..skip + leaf_depth]) *)
     do sub_root <-
        match build_trie H KEYLEN skip ops with
        | Ok n => Ok n
        | Err e => match e with end
        | Panic => Panic
        end ;;
-    let end_layer := skip - up_layers in     (* :848 up_layers <= skip *)
-    (* :853 [terminal.terminal.path()[..terminal.depth]] *)
+    let end_layer := skip - up_layers in     (* :880 up_layers <= skip *)
+    (* :885 [terminal.terminal.path()[..terminal.depth]] *)
     do path_bits <- slice_to_res (term_path (vm_terminal terminal)) (vm_depth terminal) ;;
     do r <- compact_loop (firstn up_layers (rev path_bits)) sub_root skip
                          pending_siblings common_siblings ;;
@@ -215,7 +216,7 @@ Section WithHasher.
     Ok ((cur_node, end_layer) :: pending_siblings, common_siblings).
 
   (* ---------------------------------------------------------------------------------------- *)
-  (* :688 verify_update                                                                        *)
+  (* :720 verify_update                                                                        *)
 
   (* the mutable locals of verify_update *)
   Record vu_state := {
@@ -230,27 +231,27 @@ Section WithHasher.
   Definition unwrap_or {A : Type} (o : option A) (d : A) : A :=
     match o with Some a => a | None => d end.
 
-  (* :752-762 find the terminal index of an operation.  [inner_from] is
+  (* :784-762 find the terminal index of an operation.  [inner_from] is
      [proof.inner[next_terminal_index..]]: it is empty exactly when
-     [proof.inner.len() <= next_terminal_index] (:753, :759). *)
+     [proof.inner.len() <= next_terminal_index] (:785, :791). *)
   Fixpoint find_terminal (inner_from : list vmpath) (next_terminal_index : nat) (key : key)
     : res err nat :=
     match inner_from with
     | [] => Err MultiOpOutOfScope
     | t :: inner_from' =>
-        do c <- terminal_contains t key ;;     (* :757 *)
+        do c <- terminal_contains t key ;;     (* :789 *)
         if c then Ok next_terminal_index
         else find_terminal inner_from' (S next_terminal_index) key
     end.
 
-  (* :778 [for terminal_index in start..updated_index]; [n] = number of remaining iterations *)
+  (* :810 [for terminal_index in start..updated_index]; [n] = number of remaining iterations *)
   Fixpoint ingest_up_to_current (n : nat) (terminal_index : nat) (proof : vmproof)
            (pending_siblings : list (node H * nat)) (common_siblings : common_siblings_t)
     : res err (list (node H * nat) * common_siblings_t) :=
     match n with
     | O => Ok (pending_siblings, common_siblings)
     | S n' =>
-        (* :779 [proof.inner[terminal_index]], :780 [proof.inner[terminal_index + 1]] *)
+        (* :811 [proof.inner[terminal_index]], :812 [proof.inner[terminal_index + 1]] *)
         do terminal <- nth_res (vmp_inner proof) terminal_index ;;
         do next_terminal <- nth_res (vmp_inner proof) (terminal_index + 1) ;;
         do common_siblings <- advance common_siblings proof ;;
@@ -259,17 +260,17 @@ Section WithHasher.
         ingest_up_to_current n' (S terminal_index) proof (fst r) (snd r)
     end.
 
-  (* :742-809 one iteration of the main loop for a real (key, op) item *)
+  (* :774-809 one iteration of the main loop for a real (key, op) item *)
   Definition verify_update_step (proof : vmproof) (st : vu_state) (key : key) (op : option value)
     : res err vu_state :=
-    (* :744 enforce key ordering: [key <= last_key] *)
+    (* :776 enforce key ordering: [key <= last_key] *)
     if match st_last_key st with Some last_key => negb (key_ltb last_key key) | None => false end
     then Err MultiOpsOutOfOrder
     else
       let next_terminal_index := unwrap_or (st_last_terminal_index st) 0 in
       do next_terminal_index <-
          find_terminal (skipn next_terminal_index (vmp_inner proof)) next_terminal_index key ;;
-      (* :765 *)
+      (* :797 *)
       if match st_last_terminal_index st with None => true | Some x => Nat.eqb x next_terminal_index end
       then Ok {| st_pending_siblings := st_pending_siblings st;
                  st_last_key := Some key;
@@ -279,17 +280,17 @@ Section WithHasher.
                  st_common_siblings := st_common_siblings st |}
       else
         match st_last_terminal_index st with
-        | None => Panic    (* :772 unwrap(): unreachable, None was handled at :765 *)
+        | None => Panic    (* :804 unwrap(): unreachable, None was handled at :797 *)
         | Some updated_index =>
             let start := unwrap_or (st_next_pending_terminal_index st) 0 in
-            (* :778 the range start..updated_index is empty when start >= updated_index *)
+            (* :810 the range start..updated_index is empty when start >= updated_index *)
             do r <- ingest_up_to_current (updated_index - start) start proof
                                          (st_pending_siblings st) (st_common_siblings st) ;;
             let '(pending_siblings, common_siblings) := r in
             let ops := st_working_ops st in
-            (* :796 [proof.inner[updated_index]] *)
+            (* :828 [proof.inner[updated_index]] *)
             do terminal <- nth_res (vmp_inner proof) updated_index ;;
-            (* :797 proof.inner.get(updated_index + 1) *)
+            (* :829 proof.inner.get(updated_index + 1) *)
             let next_terminal := nth_error (vmp_inner proof) (updated_index + 1) in
             do common_siblings <- advance common_siblings proof ;;
             do r <- hash_and_compact_terminal pending_siblings terminal next_terminal
@@ -311,7 +312,7 @@ Section WithHasher.
         verify_update_loop proof ops' st'
     end.
 
-  (* :717 [for terminal_index in start..proof.inner.len()]; [n] = number of remaining iterations *)
+  (* :749 [for terminal_index in start..proof.inner.len()]; [n] = number of remaining iterations *)
   Fixpoint ingest_to_end (n : nat) (terminal_index : nat) (proof : vmproof)
            (updated_terminal_index : nat) (working_ops : list (key * option value))
            (pending_siblings : list (node H * nat)) (common_siblings : common_siblings_t)
@@ -319,10 +320,10 @@ Section WithHasher.
     match n with
     | O => Ok (pending_siblings, common_siblings)
     | S n' =>
-        (* :718 [proof.inner.len() - 1] : inside the loop body inner is not empty, no underflow *)
+        (* :750 [proof.inner.len() - 1] : inside the loop body inner is not empty, no underflow *)
         let next := if Nat.eqb terminal_index (length (vmp_inner proof) - 1)
                     then None else Some (terminal_index + 1) in
-        (* :724 [proof.inner[terminal_index]], :725 [proof.inner[n]] : both in range here *)
+        (* :756 [proof.inner[terminal_index]], :757 [proof.inner[n]] : both in range here *)
         do terminal <- nth_res (vmp_inner proof) terminal_index ;;
         do next_terminal <-
            match next with
@@ -336,7 +337,7 @@ Section WithHasher.
         ingest_to_end n' (S terminal_index) proof updated_terminal_index working_ops (fst r) (snd r)
     end.
 
-  (* :712-741 the iteration for the dummy last item *)
+  (* :744-741 the iteration for the dummy last item *)
   Definition verify_update_last (proof : vmproof) (st : vu_state)
     : res err (list (node H * nat) * common_siblings_t) :=
     let updated_terminal_index := unwrap_or (st_last_terminal_index st) 0 in
@@ -346,14 +347,14 @@ Section WithHasher.
 
   Definition verify_update (proof : vmproof) (ops : list (key * option value)) : res err (node H) :=
     match ops with
-    | [] => Ok (vmp_root proof)    (* :692 *)
+    | [] => Ok (vmp_root proof)    (* :724 *)
     | _ :: _ =>
         do st <- verify_update_loop proof ops
                    {| st_pending_siblings := []; st_last_key := None;
                       st_last_terminal_index := None; st_next_pending_terminal_index := None;
                       st_working_ops := []; st_common_siblings := cs_new |} ;;
         do r <- verify_update_last proof st ;;
-        (* :813 pending_siblings.pop().map(|n| n.0).unwrap_or(proof.root) *)
+        (* :845 pending_siblings.pop().map(|n| n.0).unwrap_or(proof.root) *)
         Ok (match fst r with (n, _) :: _ => n | [] => vmp_root proof end)
     end.
 End WithHasher.
@@ -475,7 +476,7 @@ Module MultiUpdateExamples.
   Proof. vm_compute. reflexivity. Qed.
 
   (* malformed hand-made VerifiedMultiProof: the unique sibling range points outside the sibling
-     vector, [siblings[self.taken_siblings..end]] (:662) panics *)
+     vector, [siblings[self.taken_siblings..end]] (:694) panics *)
   Example bad_sibling_range_panics :
     vu {| vmp_inner := [{| vm_terminal := TLeaf key_path_0' 0%N; vm_depth := 1;
                            vm_unique_siblings_start := 0; vm_unique_siblings_end := 1 |}];
@@ -485,7 +486,7 @@ Module MultiUpdateExamples.
   Proof. vm_compute. reflexivity. Qed.
 
   (* malformed hand-made VerifiedMultiProof: a terminal whose siblings are missing from the
-     common-sibling stack, [pop_if_at_depth(cur_layer).unwrap()] (:868) panics *)
+     common-sibling stack, [pop_if_at_depth(cur_layer).unwrap()] (:900) panics *)
   Example missing_common_sibling_panics :
     vu {| vmp_inner := [{| vm_terminal := TLeaf key_path_0' 0%N; vm_depth := 1;
                            vm_unique_siblings_start := 0; vm_unique_siblings_end := 0 |}];
@@ -495,7 +496,7 @@ Module MultiUpdateExamples.
   Proof. vm_compute. reflexivity. Qed.
 
   (* malformed hand-made VerifiedMultiProof: depth beyond the key, [key_path[..terminal.depth]]
-     (:587) panics *)
+     (:619) panics *)
   Example depth_beyond_key_panics :
     vu {| vmp_inner := [{| vm_terminal := TLeaf key_path_0' 0%N; vm_depth := 9;
                            vm_unique_siblings_start := 0; vm_unique_siblings_end := 0 |}];
